@@ -3,7 +3,7 @@ import numpy as np
 
 from .. import gen
 from ..engine import Result, hyp_target
-from .common import F, STOR_TH0, base_sample, bunds_effective, cfg_simplifications, field_mgmt_for, observe, rows
+from .common import F, STOR_TH0, base_sample, configured_profile, bunds_effective, cfg_simplifications, field_mgmt_for, observe, rows
 
 ID = "C03"
 RULE = ("Hypothesis-generated configurations biased to saturated / wilting-point / numeric starts, 50-300 mm storms, dry spells "
@@ -13,7 +13,7 @@ RULE = ("Hypothesis-generated configurations biased to saturated / wilting-point
         "reaches the bund height); distinct = configuration hash.")
 ASSUMPTIONS = [
     "the th bound is checked only when the initial profile is between wilting point and saturation in every compartment (the property's precondition); other cases still check ponding and Wr and are counted under the label iwc_outside_precondition",
-    "bounds (th_dry, th_s) are the initialised profile arrays of the compartment's own layer",
+    "bounds (air-dry, saturation, wilting point) are the CONFIGURED values of the compartment's layer (built-in soil table / custom hydraulic layers; layers given by texture use the model's pedotransfer values, which C18 compares with an independent Saxton & Rawls)",
     "bund height of a day = the field management in force that day (season or fallow); bunds <= 1 mm count as none",
     "tolerance 1e-9",
 ]
@@ -37,7 +37,8 @@ def evaluate(cfg):
     idx, n = rows(tr)
     if n == 0:
         return res
-    pr = tr.profile
+    pr = configured_profile(cfg, tr)   # saturation / air-dry / wilting point as configured, not the model's copies
+    pr["Layer"], pr["Ksat"] = tr.profile["Layer"], tr.profile["Ksat"]
     th = tr.storage[idx][:, STOR_TH0:]
     fl = tr.flux[idx]
     res.evals = int(n)
@@ -61,6 +62,14 @@ def evaluate(cfg):
         L.add("iwc_outside_precondition")
     ss = fl[:, F["surface_storage"]]
     at_bund = False
+    # the state the run starts from: ponded water only behind configured bunds, not above them
+    from .common import FMView
+
+    fm0 = FMView(cfg.get("fm") if int(tr.season_a[0]) >= 0 else cfg.get("ffm"))
+    want0 = min(fm0.bund_water, fm0.z_bund) if bunds_effective(fm0) else 0.0
+    if abs(tr.ss_before_a[0] - want0) > EPS:
+        res.fail("initial_ponding", "the run starts with %.6g mm ponded; the field management in force on the first day (%s) configures %.6g mm (bunds %s, height %.6g mm, initial water %.6g mm)" % (
+            tr.ss_before_a[0], "in-season" if int(tr.season_a[0]) >= 0 else "fallow", want0, fm0.bunds, fm0.z_bund, fm0.bund_water))
     for i in range(n):
         fm = field_mgmt_for(tr, i)
         if bunds_effective(fm):
